@@ -206,6 +206,8 @@ class Interp:
         self.func_stack = []
         self.trace_calls = []                # (name, args) for structural/ghost obligations
         self.on_call = None                  # hook(fval, args, kwargs) -> (handled, value)
+        self.int_is_means_eq = False
+        self.empty_dict_factory = None       # contract may ask for `{}` to be a symbolic dict (keys will be symbolic)
 
     # ------------------------------------------------------------------------------------------------------------
     # functions
@@ -684,6 +686,8 @@ class Interp:
         return set(self.e_Tuple(n, env))
 
     def e_Dict(self, n, env):
+        if not n.keys and self.empty_dict_factory is not None:
+            return self.empty_dict_factory()
         d = {}
         for k, v in zip(n.keys, n.values):
             if k is None:
@@ -755,6 +759,11 @@ class Interp:
             return eq(a, b)
         if isinstance(op, ast.NotEq):
             return not_(eq(a, b))
+        if isinstance(op, (ast.Is, ast.IsNot)) and self.int_is_means_eq and isinstance(a, SInt) and isinstance(b, SInt):
+            # contract-declared assumption: both operands are elements obtained by iterating ONE set object, whose
+            # elements are pairwise unequal, so identity coincides with equality
+            r = eq(a, b)
+            return r if isinstance(op, ast.Is) else not_(r)
         if isinstance(op, ast.Is):
             return _is(a, b)
         if isinstance(op, ast.IsNot):
